@@ -269,8 +269,12 @@ do_io_ctx(coap_context_t *ctx) {
     }
 }
 
+void (*ns_mutate)(ns_dgram_t *d); /* may replace d->data / d->len (data must stay an exact-size malloc block) */
+
 static void
 hand_over(ns_dgram_t *d) {
+  if (ns_mutate)
+    ns_mutate(d);
   if (ns_on_deliver)
     ns_on_deliver(d);
   struct ns_sock *best = NULL;
@@ -444,6 +448,7 @@ __wrap_coap_socket_recv(coap_socket_t *sock, coap_packet_t *packet) {
 static ns_stream_t *g_streams[NS_MAXSTREAM];
 static int g_nstreams;
 int ns_stream_auto = 1;
+void (*ns_stream_filter)(ns_stream_t *s, int from_side, uint8_t *data, size_t *len, size_t cap);
 
 int ns_stream_count(void) { return g_nstreams; }
 ns_stream_t *ns_stream_get(int i) { return i >= 0 && i < g_nstreams ? g_streams[i] : NULL; }
@@ -668,7 +673,16 @@ send(int fd, const void *buf, size_t len, int flags) {
   size_t n = len;
   if (me->max_write && n > me->max_write)
     n = me->max_write;
-  side_append(other, buf, n);
+  if (ns_stream_filter) {
+    /* the harness may rewrite what the peer will read (hostile network / peer); the writer sees success */
+    size_t m = n;
+    uint8_t *tmp = malloc(n + 64);
+    memcpy(tmp, buf, n);
+    ns_stream_filter(s, k->stream_side, tmp, &m, n + 64);
+    side_append(other, tmp, m);
+    free(tmp);
+  } else
+    side_append(other, buf, n);
   return (ssize_t)n;
 }
 
@@ -1080,6 +1094,13 @@ ns_init(void) {
   g_next_epfd = NS_EPFD_BASE;
 #endif
   ns_dups_done = 0;
+  ns_stream_filter = NULL;
+  ns_mutate = NULL;
+  ns_stream_auto = 1;
+  ns_on_send = NULL;
+  ns_on_deliver = NULL;
+  ns_raw_rx = NULL;
+  ns_prng_hook = NULL;
   ns_steps = 0;
   ns_send_fail_next = 0;
   g_lcg = 0x9E3779B97F4A7C15ULL;
